@@ -1,8 +1,364 @@
-//! Structured payload generator (STUB: filled in together with the corresponding BDS models).
+//! Structured ME payload generator for the ADS-B extended-squitter registers BDS 0,9 (tc 19),
+//! BDS 6,1 (tc 28), BDS 6,2 (tc 29) and BDS 6,5 (tc 31).
+//!
+//! Every payload is a 7-byte ME field whose first five bits are the type code.  For each register
+//! a *valid* random base payload is drawn (reserved bits that the decoder asserts on are zero) and
+//! then one field at a time (or a sign/status bit together with the value it governs) is swept
+//! over boundary values: 0, 1, 2, max, max-1, top bit only, all-but-top-bit — or, in the thorough
+//! tier, over its whole code space when that is at most 2^11 codes.  Every subtype, every ADS-B
+//! version (0, 1, 2, 3..7), every reserved value and every status bit on/off is produced, plus
+//! near-valid payloads (a non-zero value in each asserted reserved field, stray padding bits).
 use crate::common::*;
+use crate::decgen::put_bits;
 
-/// 7-byte ME/MB payloads: mostly valid encodings of the registers this file covers, boundary
-/// values of every field, each status bit on/off, plus a few near-valid ones.
-pub fn payloads(_rng: &mut Rng, _thorough: bool) -> Vec<Vec<u8>> {
-    vec![]
+type Me = [u8; 7];
+
+/// boundary values of an `n`-bit field (all codes in the thorough tier when `n <= 11`)
+fn bvals(rng: &mut Rng, n: usize, thorough: bool) -> Vec<u64> {
+    let max = (1u64 << n) - 1;
+    if n <= 3 || (thorough && n <= 11) {
+        return (0..=max).collect();
+    }
+    let top = 1u64 << (n - 1);
+    let mut v = vec![0, 1, 2, max, max - 1, top, top - 1, top + 1];
+    if thorough {
+        v.extend([3, max - 2, top >> 1, rng.below(max + 1), rng.below(max + 1), rng.below(max + 1)]);
+        for i in 0..n {
+            v.push(1 << i);
+            v.push(max ^ (1 << i));
+        }
+    } else {
+        v.push(rng.below(max + 1));
+    }
+    v.sort_unstable();
+    v.dedup();
+    v
+}
+
+fn random_me(rng: &mut Rng, tc: u64) -> Me {
+    let mut p = [0u8; 7];
+    for b in p.iter_mut() {
+        *b = rng.next() as u8;
+    }
+    put_bits(&mut p, 0, 5, tc);
+    p
+}
+
+/// sweep each `(offset, width)` field of `fields` over its boundary values on fresh bases
+fn sweep(out: &mut Vec<Vec<u8>>, rng: &mut Rng, thorough: bool, fields: &[(usize, usize)], base: &dyn Fn(&mut Rng) -> Me) {
+    for &(off, n) in fields {
+        for v in bvals(rng, n, thorough) {
+            let mut p = base(rng);
+            put_bits(&mut p, off, n, v);
+            out.push(p.to_vec());
+        }
+    }
+}
+
+/// sweep a value field under each setting of the one-bit field that governs it (sign / status)
+fn sweep_with_bit(
+    out: &mut Vec<Vec<u8>>,
+    rng: &mut Rng,
+    thorough: bool,
+    bit: usize,
+    field: (usize, usize),
+    base: &dyn Fn(&mut Rng) -> Me,
+) {
+    for s in 0..2u64 {
+        for v in bvals(rng, field.1, thorough) {
+            let mut p = base(rng);
+            put_bits(&mut p, bit, 1, s);
+            put_bits(&mut p, field.0, field.1, v);
+            out.push(p.to_vec());
+        }
+    }
+}
+
+// ---------------------------------------------------------------------------------------------
+// BDS 0,9 — tc 19
+// 5 subtype(3) | 8 intent | 9 ifr | 10 NACv(3) | 13 velocity(22) | 35 vrate_src | 36 vrate_sign |
+// 37 vrate(9) | 46 reserved(2) | 48 gnss_sign | 49 geo(7)
+// velocity, subtypes 1/2: 13 ew_sign | 14 ew(10) | 24 ns_sign | 25 ns(10)
+// velocity, subtypes 3/4: 13 hdg_status | 14 hdg(10) | 24 as_type | 25 airspeed(10)
+// ---------------------------------------------------------------------------------------------
+fn bds09(out: &mut Vec<Vec<u8>>, rng: &mut Rng, thorough: bool) {
+    for sub in 0..8u64 {
+        let base = move |rng: &mut Rng| -> Me {
+            let mut p = random_me(rng, 19);
+            put_bits(&mut p, 5, 3, sub);
+            if rng.chance(3, 4) {
+                put_bits(&mut p, 46, 2, 0);
+            }
+            p
+        };
+        // all-zero / all-one bodies
+        for fillv in [0u64, (1 << 48) - 1] {
+            let mut p = base(rng);
+            put_bits(&mut p, 8, 48, fillv);
+            out.push(p.to_vec());
+        }
+        // header bits, NACv, vertical-rate source, reserved pair
+        sweep(out, rng, thorough, &[(8, 1), (9, 1), (10, 3), (35, 1), (46, 2)], &base);
+        // vertical rate and GNSS-baro difference under both signs
+        sweep_with_bit(out, rng, thorough, 36, (37, 9), &base);
+        sweep_with_bit(out, rng, thorough, 48, (49, 7), &base);
+        match sub {
+            1..=4 => {
+                // ew / heading under sign / status, ns / airspeed under sign / type
+                sweep_with_bit(out, rng, thorough, 13, (14, 10), &base);
+                sweep_with_bit(out, rng, thorough, 24, (25, 10), &base);
+                // both 10-bit fields at boundary values together, all four one-bit combinations
+                let edge: &[u64] = if thorough { &[0, 1, 2, 3, 511, 512, 513, 1021, 1022, 1023] } else { &[0, 1, 2, 1023] };
+                for &a in edge {
+                    for &b in edge {
+                        for s in 0..4u64 {
+                            if !thorough && sub != 1 && (s == 1 || s == 2) {
+                                continue;
+                            }
+                            let mut p = base(rng);
+                            put_bits(&mut p, 13, 1, s >> 1);
+                            put_bits(&mut p, 14, 10, a);
+                            put_bits(&mut p, 24, 1, s & 1);
+                            put_bits(&mut p, 25, 10, b);
+                            out.push(p.to_vec());
+                        }
+                    }
+                }
+                // random valid messages
+                for _ in 0..(if thorough { 1500 } else { 8 }) {
+                    out.push(base(rng).to_vec());
+                }
+            }
+            _ => {
+                // reserved subtypes: the 22-bit body
+                sweep(out, rng, thorough, &[(13, 22)], &base);
+                for _ in 0..(if thorough { 200 } else { 3 }) {
+                    out.push(base(rng).to_vec());
+                }
+            }
+        }
+    }
+}
+
+// ---------------------------------------------------------------------------------------------
+// BDS 6,1 — tc 28:  5 subtype(3) | 8 emergency(3) | 11 squawk(13) | 24.. never read
+// ---------------------------------------------------------------------------------------------
+fn bds61(out: &mut Vec<Vec<u8>>, rng: &mut Rng, thorough: bool) {
+    let base = |rng: &mut Rng| -> Me {
+        let mut p = random_me(rng, 28);
+        // subtype 1 (emergency/priority) is the one the struct describes; the tail is reserved
+        put_bits(&mut p, 5, 3, 1);
+        if rng.chance(3, 4) {
+            put_bits(&mut p, 24, 32, 0);
+        }
+        p
+    };
+    for st in 0..8u64 {
+        for es in 0..8u64 {
+            for _ in 0..(if thorough { 12 } else { 1 }) {
+                let mut p = base(rng);
+                put_bits(&mut p, 5, 3, st);
+                put_bits(&mut p, 8, 3, es);
+                out.push(p.to_vec());
+            }
+        }
+    }
+    // squawk: boundary values and every single bit (thorough: bvals adds single bits on/off)
+    sweep(out, rng, thorough, &[(11, 13)], &base);
+    for i in 0..13 {
+        let mut p = base(rng);
+        put_bits(&mut p, 11, 13, 1 << i);
+        out.push(p.to_vec());
+    }
+    // well-known emergency squawks 7500/7600/7700 are Gillham-interleaved; random codes cover them
+    for _ in 0..(if thorough { 2000 } else { 8 }) {
+        let mut p = base(rng);
+        put_bits(&mut p, 11, 13, rng.below(8192));
+        out.push(p.to_vec());
+    }
+    // the unread tail: ones / random
+    for fillv in [0u64, 0xffff_ffff] {
+        let mut p = base(rng);
+        put_bits(&mut p, 24, 32, fillv);
+        out.push(p.to_vec());
+    }
+}
+
+// ---------------------------------------------------------------------------------------------
+// BDS 6,2 — tc 29
+// 5 subtype(2) | 7 pad | 8 source | 9 sel_alt(11) | 20 qnh(9) | 29 hdg_status | 30 hdg(9) | 39 NACp(4)
+// | 43 NICbaro | 44 SIL(2) | 46 mode_status | 47 autopilot | 48 vnav | 49 alt_hold | 50 imf |
+// 51 approach | 52 tcas | 53 lnav | 54 pad(2)
+// ---------------------------------------------------------------------------------------------
+fn bds62(out: &mut Vec<Vec<u8>>, rng: &mut Rng, thorough: bool) {
+    let base = |rng: &mut Rng| -> Me {
+        let mut p = random_me(rng, 29);
+        put_bits(&mut p, 5, 2, 1); // the subtype the standard defines
+        if rng.chance(3, 4) {
+            put_bits(&mut p, 7, 1, 0);
+            put_bits(&mut p, 54, 2, 0);
+        }
+        p
+    };
+    for fillv in [0u64, (1 << 51) - 1] {
+        for st in 0..4u64 {
+            let mut p = base(rng);
+            put_bits(&mut p, 5, 51, fillv);
+            put_bits(&mut p, 5, 2, st);
+            out.push(p.to_vec());
+        }
+    }
+    // subtype (0 and the undefined 2, 3 are decoded like 1), pads, source, single flags
+    sweep(
+        out,
+        rng,
+        thorough,
+        &[(5, 2), (7, 1), (8, 1), (39, 4), (43, 1), (44, 2), (50, 1), (52, 1), (54, 2)],
+        &base,
+    );
+    sweep(out, rng, thorough, &[(9, 11), (20, 9)], &base);
+    sweep_with_bit(out, rng, thorough, 29, (30, 9), &base);
+    // mode status x the mode flags (autopilot, vnav, alt_hold, imf, approach, tcas, lnav)
+    for ms in 0..2u64 {
+        if thorough {
+            for flags in 0..128u64 {
+                let mut p = base(rng);
+                put_bits(&mut p, 46, 1, ms);
+                put_bits(&mut p, 47, 7, flags);
+                out.push(p.to_vec());
+            }
+        } else {
+            for i in 0..7 {
+                for fl in [1u64 << i, 127 ^ (1 << i)] {
+                    let mut p = base(rng);
+                    put_bits(&mut p, 46, 1, ms);
+                    put_bits(&mut p, 47, 7, fl);
+                    out.push(p.to_vec());
+                }
+            }
+        }
+    }
+    for _ in 0..(if thorough { 3000 } else { 10 }) {
+        out.push(base(rng).to_vec());
+    }
+}
+
+// ---------------------------------------------------------------------------------------------
+// BDS 6,5 — tc 31, 5 subtype(3)
+// airborne (0): 8 res(2)=0 | 10 acas | 11 cdti | 12 res(2)=0 | 14 arv | 15 ts | 16 tc(2) | 18 pad(6) |
+//               24 res(2)=0 | 26 tcas_ra | 27 ident | 28 atc | 29 saf | 30 sda(2) | 32 pad(8) | 40 version(3)
+//   v1: 43 NICs | 44 NACp(4) | 48 BAQ(2) | 50 SIL(2) | 52 BAI | 53 HRD | 54 pad(2)
+//   v2: 43 NICa | 44 NACp(4) | 48 GVA(2) | 50 SIL(2) | 52 BAI | 53 HRD | 54 SILs | 55 pad
+// surface (1):  8 res(2)=0 | 10 poe | 11 1090ES | 12 pad(2) | 14 GRND | 15 UATin | 16 NACv(3) | 19 NICc |
+//               20 L/W(4) | 24 res(2)=0 | 26.. as above | 32 gps offset(8) | 40 version(3)
+//   v1: 43 NICs | 44 NACp(4) | 48 pad(2) | 50 SIL(2) | 52 TAH | 53 HRD | 54 pad(2)
+//   v2: 43 NICa | 44 NACp(4) | 48 pad(2) | 50 SIL(2) | 52 TAH | 53 HRD | 54 SILs | 55 pad
+// reserved (2..=7): 45 bits re-read from the ME start
+// ---------------------------------------------------------------------------------------------
+fn bds65(out: &mut Vec<Vec<u8>>, rng: &mut Rng, thorough: bool) {
+    let reps = if thorough { 40 } else { 2 };
+    for st in 0..2u64 {
+        // asserted-zero reserved pairs of this subtype
+        let asserted: &[usize] = if st == 0 { &[8, 12, 24] } else { &[8, 24] };
+        for ver in 0..8u64 {
+            let base = move |rng: &mut Rng| -> Me {
+                let mut p = random_me(rng, 31);
+                put_bits(&mut p, 5, 3, st);
+                put_bits(&mut p, 8, 2, 0);
+                put_bits(&mut p, 24, 2, 0);
+                if st == 0 {
+                    put_bits(&mut p, 12, 2, 0);
+                    if rng.chance(3, 4) {
+                        put_bits(&mut p, 18, 6, 0);
+                        put_bits(&mut p, 32, 8, 0);
+                    }
+                } else if rng.chance(3, 4) {
+                    put_bits(&mut p, 12, 2, 0);
+                }
+                put_bits(&mut p, 40, 3, ver);
+                p
+            };
+            for _ in 0..reps {
+                out.push(base(rng).to_vec());
+            }
+            // zero / all-one body around the fixed subtype, reserved pairs and version
+            for fillv in [0u64, (1 << 48) - 1] {
+                let mut p = base(rng);
+                put_bits(&mut p, 8, 48, fillv);
+                for &o in asserted {
+                    put_bits(&mut p, o, 2, 0);
+                }
+                put_bits(&mut p, 40, 3, ver);
+                out.push(p.to_vec());
+            }
+            // version-dependent tail, field by field
+            let tail: &[(usize, usize)] = match (st, ver) {
+                (_, 0) => &[(43, 13)],
+                (0, 1) => &[(43, 1), (44, 4), (48, 2), (50, 2), (52, 1), (53, 1), (54, 2)],
+                (0, 2) => &[(43, 1), (44, 4), (48, 2), (50, 2), (52, 1), (53, 1), (54, 1), (55, 1)],
+                (1, 1) => &[(43, 1), (44, 4), (48, 2), (50, 2), (52, 1), (53, 1), (54, 2)],
+                (1, 2) => &[(43, 1), (44, 4), (48, 2), (50, 2), (52, 1), (53, 1), (54, 1), (55, 1)],
+                _ => &[(43, 5), (48, 8)],
+            };
+            if thorough || ver <= 3 {
+                sweep(out, rng, thorough, tail, &base);
+            }
+            // near-valid: each asserted reserved pair non-zero
+            if thorough || ver == 2 {
+                for &o in asserted {
+                    for v in 1..4u64 {
+                        let mut p = base(rng);
+                        put_bits(&mut p, o, 2, v);
+                        out.push(p.to_vec());
+                    }
+                }
+            }
+        }
+        // capability class / operational mode fields (version 2 and a random version)
+        let head: &[(usize, usize)] = if st == 0 {
+            &[(10, 1), (11, 1), (14, 1), (15, 1), (16, 2), (18, 6), (26, 1), (27, 1), (28, 1), (29, 1), (30, 2), (32, 8)]
+        } else {
+            &[(10, 1), (11, 1), (12, 2), (14, 1), (15, 1), (16, 3), (19, 1), (20, 4), (26, 1), (27, 1), (28, 1), (29, 1), (30, 2), (32, 8)]
+        };
+        let base2 = move |rng: &mut Rng| -> Me {
+            let mut p = random_me(rng, 31);
+            put_bits(&mut p, 5, 3, st);
+            put_bits(&mut p, 8, 2, 0);
+            put_bits(&mut p, 24, 2, 0);
+            if st == 0 {
+                put_bits(&mut p, 12, 2, 0);
+            }
+            if rng.chance(2, 3) {
+                put_bits(&mut p, 40, 3, 2);
+            }
+            p
+        };
+        sweep(out, rng, thorough, head, &base2);
+    }
+    // reserved subtypes 2..=7
+    for st in 2..8u64 {
+        for _ in 0..(if thorough { 100 } else { 2 }) {
+            let mut p = random_me(rng, 31);
+            put_bits(&mut p, 5, 3, st);
+            out.push(p.to_vec());
+        }
+        for fillv in [0u64, (1 << 48) - 1] {
+            let mut p = random_me(rng, 31);
+            put_bits(&mut p, 5, 3, st);
+            put_bits(&mut p, 8, 48, fillv);
+            out.push(p.to_vec());
+        }
+    }
+}
+
+/// 7-byte ME payloads: mostly valid encodings of BDS 0,9 / 6,1 / 6,2 / 6,5, boundary values of
+/// every field, each status bit on/off, every subtype / version / reserved value, plus a few
+/// near-valid ones.
+pub fn payloads(rng: &mut Rng, thorough: bool) -> Vec<Vec<u8>> {
+    let mut out = Vec::new();
+    bds09(&mut out, rng, thorough);
+    bds61(&mut out, rng, thorough);
+    bds62(&mut out, rng, thorough);
+    bds65(&mut out, rng, thorough);
+    out
 }
